@@ -362,6 +362,10 @@ fn c10() {
     for k in 0..tier.pick(8, 16) {
         add(json!({"producers": [[["a", 1], ["a", 2]]], "main": [["a", 4]], "flush": k % 2 == 0, "jump_k": k, "pb": pb}));
     }
+    // the last handle travels in the queue and is dropped by the worker thread itself
+    for extra in 0..=1 {
+        jobs.push(Job { harness: "c10_last_handle_on_worker", cfg: json!({"extra": extra, "pb": pb}) });
+    }
     // MutexSink: merges through clones racing the close
     let mut jobs2 = Vec::new();
     for mergers in [json!([[1]]), json!([[1, 2]]), json!([[1], [4]]), json!([[1, 2], [4]])] {
